@@ -401,6 +401,10 @@ def _mul(a, b):
             if p == 1:
                 return q
     za, zb = _coerce(a, b)
+    # a * (c / a) -> c : exact whenever the quotient is defined (its ok-bit carries a != 0)
+    for p_, q_ in ((za, zb), (zb, za)):
+        if z3.is_app(q_) and q_.decl().kind() == z3.Z3_OP_DIV and q_.arg(1).eq(p_):
+            return q_.arg(0)
     return za * zb
 
 
@@ -811,6 +815,14 @@ def _slog_plain(ctx, u):
         return z3.If(c, toreal(la), toreal(lb)), bite(c, da, db)
     if u.decl().kind() == z3.Z3_OP_UNINTERPRETED and u.decl().name() == "EXP":
         return u.arg(0), True
+    # log of a product / quotient containing EXP factors: log(EXP(a) * r) = a + log(r)   (EXP(a) > 0)
+    if u.decl().kind() in (z3.Z3_OP_MUL, z3.Z3_OP_DIV):
+        lin, rest = _split_exp_factors(u)
+        if lin is not None:
+            if rest is None:
+                return lin, True
+            lr, dr = _slog_plain(ctx, rest if znum(rest) is None else znum(rest))
+            return toreal(lr) + lin if is_z(lr) or lr != 0 else lin, dr
     u = z3.simplify(u)
     if znum(u) is not None:
         return _slog_plain(ctx, znum(u))
@@ -823,6 +835,46 @@ def _slog_plain(ctx, u):
         ctx.keep.append(l)
         ctx.facts += [z3.Implies(u > 0, z3.And((u > 1) == (l > 0), (u == 1) == (l == 0)))]
     return l, pos
+
+
+def _split_exp_factors(u):
+    """u = prod_i f_i^(+-1): returns (sum of args of the EXP factors with sign, product of the other factors or None);
+    (None, None) when no EXP factor is present"""
+    lin = []
+    rest_num, rest_den = [], []
+
+    def walk(e, sign):
+        k = e.decl().kind()
+        if k == z3.Z3_OP_MUL:
+            for c in e.children():
+                walk(c, sign)
+        elif k == z3.Z3_OP_DIV:
+            walk(e.arg(0), sign)
+            walk(e.arg(1), -sign)
+        elif k == z3.Z3_OP_UNINTERPRETED and e.decl().name() == "EXP":
+            lin.append(e.arg(0) if sign > 0 else -e.arg(0))
+        else:
+            (rest_num if sign > 0 else rest_den).append(e)
+    walk(u, 1)
+    if not lin:
+        return None, None
+    tot = lin[0]
+    for t in lin[1:]:
+        tot = tot + t
+    rest = None
+    if rest_num or rest_den:
+        num = None
+        for f in rest_num:
+            num = f if num is None else num * f
+        den = None
+        for f in rest_den:
+            den = f if den is None else den * f
+        num = z3.RealVal(1) if num is None else num
+        rest = num if den is None else num / den
+        rest = z3.simplify(rest)
+        if znum(rest) is not None and znum(rest) == 1:
+            rest = None
+    return tot, rest
 
 
 def slog(ctx, v):
@@ -1469,9 +1521,10 @@ class Interp:
                 allv = list(x.ravel()) + list(upd.ravel())
                 return emap(lambda i: allv[int(i)], r)
             out = x.copy().ravel().tolist()
+            odt = e.invars[0].aval.dtype
             for j, uv in enumerate(upd.ravel()):
-                one = jnp.zeros(upd.size, jnp.int32).at[j].set(1).reshape(upd.shape)
-                ind = np.asarray(lax.scatter_add_p.bind(jnp.zeros(x.shape, jnp.int32), cidx, one, **P_)).ravel()
+                one = jnp.zeros(upd.size, odt).at[j].set(1).reshape(upd.shape)
+                ind = np.asarray(lax.scatter_add_p.bind(jnp.zeros(x.shape, odt), cidx, one, **P_)).ravel()
                 for k in np.nonzero(ind)[0]:
                     out[k] = add(out[k], uv)
             o = np.empty(x.size, dtype=object)
@@ -1745,9 +1798,17 @@ def cmp_exp(ctx, op, a, b):
     return _cmp(op, e, Fraction(1))
 
 
-def _apps(t, acc=None):
-    """ids of EXP/LOG/UF applications and fresh sqrt consts inside t"""
-    acc = set() if acc is None else acc
+_APPS_CACHE = {}
+
+
+def _apps_of(t):
+    """frozenset of ids of EXP/LOG/UF applications and fresh sqrt consts inside t (cached per term; the cache keeps
+    the term alive so ids are not reused)"""
+    i0 = t.get_id()
+    hit = _APPS_CACHE.get(i0)
+    if hit is not None:
+        return hit[1]
+    acc = set()
     seen = set()
     st = [t]
     while st:
@@ -1756,11 +1817,29 @@ def _apps(t, acc=None):
         if i in seen:
             continue
         seen.add(i)
+        sub = _APPS_CACHE.get(i)
+        if sub is not None and i != i0:
+            acc |= sub[1]
+            continue
         if z3.is_app(e):
-            dk = e.decl()
-            if dk.kind() == z3.Z3_OP_UNINTERPRETED and (e.num_args() > 0 or dk.name().startswith("sqrt!")):
+            n = e.num_args()
+            if n == 0:
+                if e.decl().kind() == z3.Z3_OP_UNINTERPRETED and e.decl().name().startswith("sqrt!"):
+                    acc.add(i)
+                continue
+            if e.decl().kind() == z3.Z3_OP_UNINTERPRETED:
                 acc.add(i)
             st.extend(e.children())
+    fs = frozenset(acc)
+    _APPS_CACHE[i0] = (t, fs)
+    return fs
+
+
+def _apps(t, acc=None):
+    fs = _apps_of(t)
+    if acc is None:
+        return set(fs)
+    acc |= fs
     return acc
 
 
@@ -1819,7 +1898,7 @@ class ProofStats:
 STATS = ProofStats()
 
 
-def check(ctx, assumptions, goal, rlimit=20_000_000, timeout=60_000, name="", want_model=True, facts=True, subst=None):
+def check(ctx, assumptions, goal, rlimit=20_000_000, timeout=60_000, name="", want_model=True, facts=True, subst=None, alt_goals=(), abstract_ite=True):
     """returns ('unsat'|'sat'|'unknown', model|None).  goal: z3 Bool or python bool.
     subst: list of (fresh cut variable, defining term); applied to goal, assumptions and facts
     (sound because `var == term` is the cut's defining assumption)."""
@@ -1830,19 +1909,31 @@ def check(ctx, assumptions, goal, rlimit=20_000_000, timeout=60_000, name="", wa
     g = z3.simplify(goal)
     if z3.is_true(g):
         return "unsat", None
-    if subst:
-        sb = [(a, toreal(b) if z3.is_real(a) else toz(b)) for a, b in subst]
-        goal = z3.substitute(goal, *sb)
-        assumptions = [z3.substitute(a, *sb) for a in assumptions]
-        allf = [z3.substitute(f, *sb) for f in ctx.facts]
-        fs = relevant_facts(ctx, list(assumptions) + [goal], pool=allf) if facts else []
-    else:
-        fs = relevant_facts(ctx, list(assumptions) + [goal]) if facts else []
-    allc = list(assumptions) + list(fs) + [z3.Not(goal)]
+    variants, strategies = [], []
+    for gl in [goal] + [g_ for g_ in alt_goals if is_z(g_)]:
+        asm = list(assumptions)
+        if subst:
+            sb = [(a, toreal(b) if z3.is_real(a) else toz(b)) for a, b in subst]
+            gl = z3.substitute(gl, *sb)
+            asm = [z3.substitute(a, *sb) for a in asm]
+            allf = [z3.substitute(f, *sb) for f in ctx.facts]
+            fs = relevant_facts(ctx, asm + [gl], pool=allf) if facts else []
+        else:
+            fs = relevant_facts(ctx, asm + [gl]) if facts else []
+        allc = asm + list(fs) + [z3.Not(gl)]
+        variants.append(allc)
+        strategies.append(["default"] if any(_has_uf(c) for c in allc) else ["purify-nlsat", "default"])
+    trust = [True] * len(variants)
+    if abstract_ite:
+        av = abstract_ites(variants[0])
+        if av is not None:
+            variants.append(av)
+            strategies.append(["default"] if any(_has_uf(c) for c in av) else ["purify-nlsat", "default"])
+            trust.append(False)
     t = time.time()
     from . import ext
-    strategies = ["default"] if any(_has_uf(c) for c in allc) else ["purify-nlsat", "default"]
-    rr, model, info = ext.run_portfolio(allc, strategies, timeout_s=timeout / 1000.0, want_model=want_model)
+    rr, model, info = ext.run_portfolio(variants, strategies, timeout_s=timeout / 1000.0, want_model=want_model, trust_sat=trust)
+    strategies = [x for st_ in strategies for x in st_]
     STATS.queries += len(strategies)
     STATS.solver_s += time.time() - t
     r = {"unsat": z3.unsat, "sat": z3.sat}.get(rr, z3.unknown)
@@ -1866,6 +1957,33 @@ def check(ctx, assumptions, goal, rlimit=20_000_000, timeout=60_000, name="", wa
     return "unknown", None
 
 
+def abstract_ites(cons):
+    """generalisation: every maximal real-valued If-term is replaced by a fresh variable (consistently).
+    If the generalised query is unsat so is the original; `sat` of the generalisation is ignored."""
+    found = {}
+    order = []
+
+    def walk(e, seen):
+        i = e.get_id()
+        if i in seen:
+            return
+        seen.add(i)
+        if z3.is_app(e) and e.decl().kind() == z3.Z3_OP_ITE and not z3.is_bool(e):
+            if i not in found:
+                found[i] = e
+                order.append(e)
+            return
+        for c in e.children():
+            walk(c, seen)
+    seen = set()
+    for c in cons:
+        walk(c, seen)
+    if not order:
+        return None
+    sb = [(e, z3.FreshConst(e.sort(), "ite")) for e in order]
+    return [z3.substitute(c, *sb) for c in cons]
+
+
 def prove_eq(ctx, assumptions, lhs, rhs, name="", **kw):
     """lhs == rhs for plain values, trying the direct query then the exp-goal tactic"""
     if not is_z(lhs) and not is_z(rhs):
@@ -1877,18 +1995,10 @@ def prove_eq(ctx, assumptions, lhs, rhs, name="", **kw):
     uselog = has_log(ctx, d) if is_z(d) else False
     if not uselog:
         return check(ctx, assumptions, zl == zr, name=name, **kw)
-    # logarithms present: exponentiate the goal first (A = B  <=>  exp(m(A-B)) = 1), then the direct form
+    # logarithms present: the direct goal and the exponentiated goal (A = B  <=>  exp(m(A-B)) = 1) race
     mlt = max(1, log_lcm_deep(ctx, d))
     e = _sexp_plain(ctx, _mul(Fraction(mlt), d))
-    r2, m2 = check(ctx, assumptions, toreal(e) == 1, name=name + f"[exp-goal x{mlt}]", **kw)
-    if r2 == "unsat":
-        return r2, m2
-    kw2 = dict(kw)
-    kw2["timeout"] = min(kw.get("timeout", 60_000), 15_000)
-    r, m = check(ctx, assumptions, zl == zr, name=name + "[direct]", **kw2)
-    if r == "unsat":
-        return r, m
-    return (r2, m2) if r2 == "sat" else (r, m)
+    return check(ctx, assumptions, zl == zr, name=name + f"[direct | exp-goal x{mlt}]", alt_goals=[toreal(e) == 1], **kw)
 
 
 def model_value(m, t):
